@@ -149,6 +149,7 @@ func (ba *hierarchicalCASBlobAccess) Get(ctx context.Context, blobDigest digest.
 		return b
 	}
 	ba.lock.RUnlock()
+	verifYield(ctx, "hier.Get.upgrade")
 
 	// Blob was found, but it needs to be refreshed to ensure it
 	// doesn't disappear. Retry loading the blob a second time, this
@@ -342,6 +343,7 @@ func (ba *hierarchicalCASBlobAccess) FindMissing(ctx context.Context, digests di
 	// duplicated and load to increase significantly. Pick up the
 	// refresh lock to ensure bandwidth of refreshing is limited to
 	// one thread.
+	verifYield(ctx, "hier.FindMissing.refresh")
 	ba.refreshLock.Lock()
 	defer ba.refreshLock.Unlock()
 
